@@ -1709,7 +1709,7 @@ fn shape_guided_search(cx: &mut Ctx, name: &str, values: &[&str]) {
 fn shape_check(cx: &mut Ctx) {
     // (0) the embedded copy of the model's table is the live model's table
     let mut model: BTreeMap<&str, Vec<shape::Row>> = BTreeMap::new();
-    for (tag, op) in [("R", "SH R"), ("L", "SH L"), ("F", "FA")] {
+    for (tag, op) in [("R", "SH R"), ("L", "SH L"), ("F", "FA"), ("H", "HL")] {
         let lines: Vec<&str> = MODEL_SHAPES.lines().filter(|l| l.starts_with(tag) && l.as_bytes().get(1) == Some(&b' ')).map(|l| &l[2..]).collect();
         for (i, l) in lines.iter().enumerate() {
             cx.out.op(format!("{} {}", op, i), l.to_string());
@@ -1717,6 +1717,8 @@ fn shape_check(cx: &mut Ctx) {
         cx.out.op(format!("{} {}", op, lines.len()), "end".to_string());
         model.insert(tag, lines.iter().map(|l| shape::parse_row(l)).collect());
     }
+    let model_default = MODEL_SHAPES.lines().find(|l| l.starts_with("D ")).map(|l| l[2..].to_string()).unwrap_or_default();
+    cx.out.op("DF".to_string(), model_default.clone());
     let dir = repo_dir();
     let read = |rel: &str| std::fs::read_to_string(format!("{}/{}", dir, rel)).unwrap_or_default();
     let sim = shape::extract(&read("src/redis/parser.rs"), "from_resp", shape::Style::Resp);
@@ -1809,6 +1811,29 @@ fn shape_check(cx: &mut Ctx) {
     for (name, vals) in targets {
         let refs: Vec<&str> = vals.iter().map(|s| s.as_str()).collect();
         shape_guided_search(cx, &name, &refs);
+    }
+    // the extract helpers and the arm of a name without a table entry
+    let (ha, hb, hm) = (by_name(&sim.helpers), by_name(&zc.helpers), by_name(&model["H"]));
+    if ha != hb {
+        cx.out.violation("C16:source:parsers-shape-differs:extract-helpers", "the extract helpers of the two RESP parsers differ (parsed type, error texts)", json!({"from_resp": ha, "from_resp_zero_copy": hb}));
+    }
+    for n in ha.keys().chain(hm.keys()).collect::<BTreeSet<_>>() {
+        match (ha.get(n), hm.get(n)) {
+            (Some(x), Some(y)) => for f in ["ty", "perr"] {
+                compared += 1;
+                if x.get(f) != y.get(f) {
+                    cx.out.violation(&format!("C16:source:shape:resp:{}:{}", n, f), "an extract helper of the RESP parsers differs from the slot kind that models it (parsed type / text of a parse failure)",
+                        json!({"helper": n, "field": f, "source": x.get(f).map(|v| readable(v)), "model": y.get(f).map(|v| readable(v))}));
+                }
+            },
+            _ => cx.out.violation(&format!("C16:source:shape:resp:{}:helper-row", n), "an extract helper exists in the source only or in the model only", json!({"helper": n})),
+        }
+    }
+    let src_default = format!("resp={} lua={}", sim.default_arm, lua.default_arm);
+    compared += 1;
+    if sim.default_arm != zc.default_arm || src_default != model_default {
+        cx.out.violation("C16:source:shape:default-arm", "what a command name without a match arm answers differs between the sources or from the model (RESP parsers: Command::Unknown(name); translator: the 'Unknown Redis command' error)",
+            json!({"from_resp": sim.default_arm, "from_resp_zero_copy": zc.default_arm, "translator": lua.default_arm, "model": readable(&model_default)}));
     }
     cx.out.count_n("shape:fields-compared", compared);
     cx.out.count_n("shape:fields-unrecognised", unrecognised.len() as u64);
